@@ -329,7 +329,7 @@ class SamplePosterior(Contract):
                 p.prove(z3.Implies(I.truth(dd["saved_config"]), z3.BoolVal("aspire_config" in root.f["members"].d)), f"{q}:C14:context flag saved_config implies the configuration is in the file {tag}")
             if "aspire_config" in root.f["members"].d and sh["save_config"]:
                 st = root.f["members"].d["aspire_config"].f.get("sampler_type")
-                p.prove(z3.BoolVal(isinstance(st, Str) and st.v == sh["sampler"]), f"{q}:C14:the stored configuration names the sampler type that ran {tag}")
+                p.prove(z3.BoolVal(isinstance(st, Str) and st.v == sh["sampler"]), f"{q}:C14:C12:the stored configuration names the sampler type that ran (the resume route needs it) {tag}")
         else:
             p.prove(z3.BoolVal("checkpoint_file_path" not in run_kw), f"{q}:C12:no checkpoint keywords without a checkpoint path {tag}")
         p.prove(z3.BoolVal(a.f.get("_sampler") is s), f"{q}:C17:the instance keeps the sampler whose evaluation counter it reports {tag}")
